@@ -94,6 +94,22 @@ theorem step_keeps_call {s s' : State} {l : Label} {c j : Nat} {cn : Conn} {k : 
     · rcases Nat.lt_or_ge c s.conns.length with h' | h'
       · exact h'
       · rw [List.getElem?_eq_none h'] at hc; cases hc
+  case offerTls =>
+    cases h
+    refine same cn ?_ hk rfl
+    show (s.conns ++ _)[c]? = some cn
+    rw [List.getElem?_append_left]
+    · exact hc
+    · rcases Nat.lt_or_ge c s.conns.length with h' | h'
+      · exact h'
+      · rw [List.getElem?_eq_none h'] at hc; cases hc
+  case clientHello c' => exact viaConn h (fun _ => rfl) (fun _ => rfl)
+  case tlsTake c' =>
+    split at h
+    · exact viaConn h (fun _ => rfl) (fun _ => rfl)
+    · cases h
+  case tlsDone c' => exact viaConn h (fun _ => rfl) (fun _ => rfl)
+  case tlsFail c' => exact viaConn h (fun _ => rfl) (fun _ => rfl)
   case freeRun => cases h; exact same cn hc hk rfl
   case sigFire | endIncoming | acceptErr | loopSig | loopErr | loopEnd | afterLoop =>
     split at h
